@@ -14,8 +14,10 @@ def read_bytes(path):
         return f.read()
 
 
-def failed_dump(sym, fmt, position, attr, rule, maxlen, k, preexisting):
-    """a valid object was written to `path`; then one field (anywhere) becomes invalid and dump(path) is called again"""
+def failed_dump(sym, fmt, position, attr, rule, maxlen, k, preexisting, any_value=False):
+    """a valid object was written to `path`; then one field (anywhere) becomes invalid and dump(path) is called again.
+    any_value: the field gets an arbitrary value, inside or outside its documented domain - whatever the reason a dump is
+    refused for (also a writer that is stricter than the documented rule), the destination must be left alone"""
     top, holder = C06.locate(fmt, position, k)
     d = sym.scratch_dir()
     path = os.path.join(d, "metadata.out")
@@ -25,9 +27,10 @@ def failed_dump(sym, fmt, position, attr, rule, maxlen, k, preexisting):
     kind = sym.choice("kind", KINDS)
     v = make_value(sym, kind, "v", maxlen)
     dom = in_domain(sym, rule, kind, v)
-    if dom is None or dom is True:
-        return
-    sym.assume(sym.not_(dom))
+    if not any_value:
+        if dom is None or dom is True:
+            return
+        sym.assume(sym.not_(dom))
     setattr(holder, attr, v)
     sym.cover("corrupted")
     try:
@@ -56,6 +59,20 @@ def jobs(tier, seed):
             for pre in ((True, False) if big or (i + seed) % 3 == 0 else (True,)):
                 out.append({"harness": "failed_dump", "params": {"fmt": fmt, "position": position, "attr": attr, "rule": rule, "maxlen": maxlen, "k": k,
                                                                 "preexisting": pre}})
+    def add_any(fmt, position, fields):
+        for i, (attr, rule, maxlen) in enumerate(fields):
+            if big or (i + seed) % 2 == 0 or fmt == "discinfo":
+                out.append({"harness": "failed_dump", "params": {"fmt": fmt, "position": position, "attr": attr, "rule": rule, "maxlen": min(maxlen, 6), "k": k,
+                                                                "preexisting": bool((i + seed) % 3), "any_value": True}})
+    add_any("discinfo", "top", C06.DISCINFO_FIELDS)
+    add_any("composeinfo", "compose", C06.COMPOSE_FIELDS)
+    add_any("composeinfo", "release", C06.RELEASE_FIELDS)
+    add_any("composeinfo", "v:Server", C06.VARIANT_FIELDS)
+    add_any("images", "img:0", C06.IMAGE_FIELDS)
+    add_any("treeinfo", "release", C06.TREE_RELEASE_FIELDS)
+    add_any("treeinfo", "tree", C06.TREE_FIELDS)
+    add_any("treeinfo", "media", C06.TREE_MEDIA_FIELDS)
+    add_any("treeinfo", "v:Server", C06.TREE_VARIANT_FIELDS)
     add("composeinfo", "compose", C06.COMPOSE_FIELDS)
     add("composeinfo", "release", C06.RELEASE_FIELDS)
     add("composeinfo", "base_product", C06.BP_FIELDS)
@@ -84,6 +101,8 @@ META = {
         "fault positions: every documented field of every nested object of the base objects of C06 (compose, release, base product, variants at depth 1-2, "
         "layered-product release, images in two cells, discinfo), invalidated by a symbolic value of any kind outside its domain - "
         "i.e. each nested validator is made to fail, whether the top-level check or only a nested writer detects it",
+        "any-value jobs: the same positions with an arbitrary value (strings up to 6 characters, integers, booleans, None, containers), "
+        "inside or outside the documented domain: every refusal, for whatever reason, must leave the destination alone",
         "treeinfo (its own dump method): release, base product, tree, media and variant fields of the C06 base tree",
     ],
 }
